@@ -59,6 +59,10 @@ CHECKS = {
    technique="exhaustive enumeration of written route tables (suffix subsets x partitions into routes x types x every route order x every suffix order) each served by a live in-process DnsService with one scripted upstream per forward route, queried with a fixed name set x RD",
    text="For every written table the rcode seen by the client and which upstream (if any) received the query are compared with an independent longest-whole-label-suffix, ASCII-case-insensitive reference; since every permutation of the same table is generated, permutation invariance is decided too.",
    note="TCP clients (REFUSED over UDP is the limiter's subject). The same suffix in two routes is don't-care and not generated."),
+ "C08": dict(level="exploration", engine="E-ENUM + E-NET", design="5/C08",
+   technique="bounded-exhaustive enumeration of ACL rule lists (through the real YAML loader) x clients x operations against an independent first-match reference; Prefix::contains for every prefix length against bit arithmetic; plus the live DNS service and live HTTP API under 12 rule lists",
+   text="require_permission is decided for every rule list of length <=3 over a 180-rule alphabet (lengths 4-6 over a sub-alphabet) x 25 clients x 4 operations; the entry points are exercised for real: DNS over TCP from 4 source addresses (refused => upstream saw nothing, cached answer not served) and HTTP over v4, v6, v4-mapped and unix-socket clients x 4 paths.",
+   note="A plain IPv4 client against an IPv6 prefix that merely covers ::ffff:0:0/96 (e.g. ::/0) is don't-care. Unknown HTTP paths may answer 403 or 404."),
 }
 
 NOT_YET = {
